@@ -139,10 +139,10 @@ func hJWSParseString(src string) (*jws.Message, error) {
 // string, number or absent here).
 type hToken struct {
 	jwt.Token
-	hasIat           bool
-	jti              string
-	htu, htm         interface{}
-	hasHTU, hasHTM   bool
+	hasIat         bool
+	jti            string
+	htu, htm       interface{}
+	hasHTU, hasHTM bool
 }
 
 func (t *hToken) IssuedAt() time.Time {
